@@ -406,6 +406,11 @@ H("C14", "debugger::command::parse::integer::verif_h::c14_int_conversions", INTF
   what="conversions for every i32", bounds="complete")
 H("C14", "debugger::command::parse::integer::verif_h::c14_int_decimal_10_digits", INTF, covers=2, timeout=2400, functions=["parse_integer"],
   what="'#' + 10 symbolic decimal digits: value or too-large, never an overflow", bounds="exactly 10 digits")
+for pp in ("C14", "C13"):
+    H(pp, "debugger::command::parse::label::verif_h::c14_label_offset_hex4", "src/debugger/command/parse/label.rs", covers=2, timeout=2400, mem_gb=24,
+      functions=["Label::try_parse", "Integer::try_parse_signed", "Integer::as_i16"],
+      what="label a+xHHHH / a-xHHHH (symbolic sign and 4 hex digits): offset exactly the written value within [-32768, 32767], refused beyond -- never read modulo 2^16",
+      bounds="one-letter name, 4 hex digits")
 H("C14", "debugger::command::parse::integer::verif_h::c14_int_hex_8_digits", INTF, covers=1, timeout=2400, functions=["parse_integer"],
   what="'x' + 8 symbolic hex digits", bounds="exactly 8 digits")
 H("C14", "debugger::command::parse::verif_h::c14_location_len4", PARSEF, covers=4, timeout=3000, mem_gb=24,
@@ -432,7 +437,7 @@ TERMF = "src/debugger/command/reader/terminal.rs"
 prop(
     "C20",
     "Bounded model checking with the strings and cursor positions *enumerated concretely inside the harness* (every "
-    "string of <= 2, thorough 3, characters over {a, space, +, e-acute, grinning face} x every cursor in [0, "
+    "string of <= 2 characters over {a, space, +, e-acute, grinning face} x every cursor in [0, "
     "#chars]) and a flag or state index left symbolic: word motions (find_word_next / find_word_back) return "
     "character indexes inside the line and equal a reference editor on a char vector (lenient on trailing blanks); "
     "count_chars_bytes agrees with the UTF-8 layout; insert/remove at a character index; one handle_key step per "
